@@ -124,7 +124,29 @@ def build_cff(tmp):
     return out
 
 
-def build_l2(tmp, race, tier, seed, name="l2", genmode="base", kind="mixed", corpus=None, plain=False):
+def plant_stale_outputs(mod, pkgs):
+    """Pre-existing output files, longer than what the tool is about to write: a regeneration
+    must replace them, not write into them. (Their tail is made of comment lines; whatever
+    survives of it starts in the middle of a line and no longer parses.)"""
+    n = 0
+    for p in pkgs:
+        for f in sorted(glob.glob(os.path.join(mod, "corpus", p["name"], "*.go"))):
+            if f.endswith("_gen.go") or f.endswith("_test.go"):
+                continue
+            try:
+                size = os.path.getsize(f)
+            except OSError:
+                continue
+            out = f[:-3] + "_gen.go"
+            lines = ["//go:build !cff\n\npackage %s\n\n" % p["name"]]
+            for k in range(size // 20 + 4000):
+                lines.append("// output of an earlier generation, line %d\n" % k)
+            open(out, "w").write("".join(lines))
+            n += 1
+    return n
+
+
+def build_l2(tmp, race, tier, seed, name="l2", genmode="base", kind="mixed", corpus=None, plain=False, stale=False):
     """Generate a corpus, run the cff tool built from /repo on it, compile the harness."""
     cff = build_cff(tmp)
     mod = copy_module(tmp, name)
@@ -133,6 +155,8 @@ def build_l2(tmp, race, tier, seed, name="l2", genmode="base", kind="mixed", cor
     if r.returncode != 0:
         raise Infra("progen failed:\n" + r.stdout[-3000:])
     pkgs = json.load(open(os.path.join(mod, "corpus", "packages.json")))
+    if stale:
+        plant_stale_outputs(mod, pkgs)
     procs = []
     for p in pkgs:
         cmd = [cff, "-quiet", "-genmode", genmode]
@@ -267,6 +291,8 @@ def _check(prop, tier, seed, tmp, t0):
         pop = prop
         if eng == "l2" and prop == "C03" and i == 5:
             pop = "C03scale"
+        if eng == "l2" and prop == "C10" and i in (5, 11):
+            pop = "C10scale" if i == 5 else "C10scale8"
         if eng == "l1":
             pops = L1_POPS[prop]
             pop = pops[(i // len(engines)) % len(pops)]
@@ -474,17 +500,25 @@ def attach_programs(path, binaries):
 def check_c20(tier, seed, tmp, t0):
     secs = SECS[tier]
     npk, per, maxt = CORPUS[tier]
-    base, _, n1 = build_l2(tmp, False, tier, seed, name="base", genmode="base", corpus=(max(2, npk // 2), per, maxt))
-    mbase, _, n2 = build_l2(tmp, False, tier, seed + 1, name="mbase", genmode="base", kind="modifier", corpus=(max(2, npk // 2), per, maxt))
+    base, basemod, n1 = build_l2(tmp, False, tier, seed, name="base", genmode="base", corpus=(max(2, npk // 2), per, maxt), stale=True)
+    mbase, _, n2 = build_l2(tmp, False, tier, seed + 1, name="mbase", genmode="base", kind="modifier", corpus=(max(2, npk // 2), per, maxt), stale=True)
     replaydir = os.path.join(OUT, "replays")
     os.makedirs(replaydir, exist_ok=True)
     build_viol = []
     smap = mmod = None
     for tag, gm, kind, sd in (("smap", "source-map", "mixed", seed), ("mod", "modifier", "modifier", seed + 1)):
         try:
-            b, _, _ = build_l2(tmp, False, tier, sd, name="m" + tag, genmode=gm, kind=kind, corpus=(max(2, npk // 2), per, maxt))
+            b, bmod, _ = build_l2(tmp, False, tier, sd, name="m" + tag, genmode=gm, kind=kind, corpus=(max(2, npk // 2), per, maxt), stale=True)
             if tag == "smap":
                 smap = b
+                # the textual clause: source-map output is base output up to comments and line directives
+                r = sh(["go", "run", "./cmd/astdiff", basemod, bmod], cwd=basemod)
+                textual = r.stdout.strip().splitlines()[-1] if r.stdout.strip() else "no output"
+                if r.returncode != 0:
+                    path = os.path.join(replaydir, "C20_smap_text_s%d.json" % seed)
+                    json.dump(dict(property="C20", engine="l2-differential", pair=tag, seed=seed, tier=tier, message="source-map output differs from base output in more than comments", detail=r.stdout[-4000:],
+                                   **{"class": "modes-differ-textually:smap"}), open(path, "w"), indent=1)
+                    build_viol.append(("modes-differ-textually:smap", "generated files differ between -genmode base and -genmode source-map beyond comments and line directives: " + r.stdout[:600].replace("\n", " | "), path))
             else:
                 mmod = b
         except Infra as e:
@@ -495,6 +529,7 @@ def check_c20(tier, seed, tmp, t0):
             build_viol.append(("mode-output-does-not-build:" + tag, "the corpus is accepted and compiles in base mode, but in -genmode %s cff fails or its output does not compile: %s" % (gm, str(e)[-600:].replace("\n", " | ")), path))
     nruns = 1500 if tier == "quick" else 40000
     jobs = []
+    textual = locals().get("textual", "not compared")
     pairs = [p for p in (("smap", base, smap, "C20"), ("mod", mbase, mmod, "C20mod")) if p[2] is not None]
     per_pair = NPROC // 4
     for tag, a, b, pop in pairs:
@@ -545,7 +580,8 @@ def check_c20(tier, seed, tmp, t0):
         sums.append(s)
     extra = dict(programs=n1 + n2, runs_compared_pairwise=compared, pairs_with_different_trace=differ_trace, disagreements_checked=compared,
                  differential="same corpus compiled with cff -genmode base / source-map (trace hash, steps and outcome digest must agree run by run) and, for the modifier-supported subset, base / modifier (outcome digest: results, nil/non-nil, failing task, invocation multiset)",
-                 comparison_samples=samples)
+                 comparison_samples=samples, textual_comparison_base_vs_source_map=textual,
+                 pre_existing_outputs="every output path held a longer file from an 'earlier generation' before cff ran, in all modes")
     if compared == 0 and not build_viol:
         infra.append("nothing was compared")
     return finish("C20", tier, seed, t0, sums, [], {}, False, ["l2"], extra, viol, infra)
